@@ -1,8 +1,94 @@
-import BrushVerif.Model.Wire
-/-! Driver for C17 (stub until the property's model exists). -/
+import BrushVerif.Model.Jobs
+/-! Driver for C17: `C17 <len|max> <op> <op> …` → per-op dump `<table>;<ended>;<extra>` joined by ` | `
+(same canonical form as harness/src/bin/c17.rs). -/
 namespace BrushVerif.Drv.C17
-open BrushVerif.Wire
+open BrushVerif.Wire BrushVerif.Jobs
 
-def handle (_toks : List Str) : Str := "unimplemented".toList
+def parseSched (s : Str) : Option (List Nat) :=
+  if s.isEmpty then some [] else (splitOnChar ',' s).mapM parseNat?
+
+def parseSpec : Str → Option Spec
+  | ['%', '%'] => some .cur
+  | ['%', '+'] => some .cur
+  | ['%', '-'] => some .prev
+  | '%' :: r => (parseNat? r).map .num
+  | _ => none
+
+inductive Req where
+  | op (o : Op)
+  | resolve (s : Option Spec)
+
+def parseOp (t : Str) : Option Req :=
+  match t with
+  | 'L' :: _ => some (.op (.launch 1 false))
+  | 'F' :: r => (parseNat? r).map (fun k => .op (.finish k))
+  | ['P'] => some (.op .poll)
+  | 'W' :: r => (parseSched r).map (fun s => .op (.waitAll s))
+  | 'S' :: r =>
+    match splitOnChar ':' r with
+    | [sp, sc] =>
+      match parseSpec sp, parseSched sc with
+      | some sp', some sc' => some (.op (.waitSpec sp' sc'))
+      | none, some sc' => some (.op (.waitSpec (.num 0) sc'))   -- unresolvable spec
+      | _, _ => none
+    | _ => none
+  | 'R' :: r => some (.resolve (parseSpec r))
+  | ['G'] => some (.op .query)
+  | _ => none
+
+def insertSorted (k : Nat) : List Nat → List Nat
+  | [] => [k]
+  | x :: xs => if k < x then k :: x :: xs else if k = x then x :: xs else x :: insertSorted k xs
+
+def sortDedup (l : List Nat) : List Nat := l.foldr insertSorted []
+
+def showNats (l : List Nat) : Str := if l.isEmpty then ['-'] else joinWith [','] (l.map natToStr)
+
+def showJob (j : Job) : Str :=
+  natToStr j.id ++
+    (match j.ann with | .current => ['+'] | .previous => ['-'] | .none => ['_']) ++
+    (match j.state with | .running => ['R'] | .stopped => ['S'] | .done => ['D'] | .unknown => ['U']) ++
+    [':'] ++ natToStr j.tag
+
+def showTable (t : Table) : Str := if t.isEmpty then ['-'] else joinWith [','] (t.map showJob)
+
+def dump (s : St) (extra : Str) : Str :=
+  if s.stuck then "blocked".toList
+  else showTable s.table ++ [';'] ++ showNats (sortDedup s.fin) ++ [';'] ++ extra
+
+def extraOf (s : St) (r : Req) (s' : St) : Str :=
+  match r with
+  | .resolve sp =>
+    match sp.bind (resolveIdx s.table) with
+    | some i => match s.table[i]? with
+      | some j => natToStr j.id ++ [':'] ++ natToStr j.tag
+      | none => "none".toList
+    | none => "none".toList
+  | .op (.waitAll _) => if s'.stuck then "blocked".toList else "ok".toList
+  | .op (.waitSpec sp _) =>
+    if s'.stuck then "blocked".toList
+    else if (resolveIdx s.table sp).isSome then "ok".toList else "fail".toList
+  | _ => ['-']
+
+def runDump : St → List Req → List Str
+  | _, [] => []
+  | s, r :: rs =>
+    if s.stuck then "stuck".toList :: runDump s rs
+    else
+      let s' := match r with | .op o => step s o | .resolve _ => s
+      dump s' (extraOf s r s') :: runDump s' rs
+
+def parseRule : Str → Option IdRule
+  | ['l', 'e', 'n'] => some .lenPlus1
+  | ['m', 'a', 'x'] => some .maxPlus1
+  | _ => none
+
+def handle (toks : List Str) : Str :=
+  match toks with
+  | [] => "bad-request".toList
+  | r :: ops =>
+    match parseRule r, ops.mapM parseOp with
+    | some rule, some reqs => joinWith " | ".toList (runDump (init rule) reqs)
+    | _, _ => "bad-op".toList
 
 end BrushVerif.Drv.C17
